@@ -82,7 +82,12 @@ class _Runner(_Processor):
             {self.cancel_event_task, process_task},
             return_when=asyncio.FIRST_COMPLETED,
         )
-        if self.cancel_event.is_set():
+        if self.cancel_event.is_set() and not process_task.done():
+            if key.id_ in self._reporting:
+                # the actor has already finished and its outcome is being reported to the broker:
+                # cancelling now and rejecting would dispose the message a second time
+                await process_task
+                return
             process_task.cancel()
             await self._conn.message_broker.reject(key)
             return
@@ -186,3 +191,7 @@ class _Runner(_Processor):
         if self._wait_for_cancel_task is not None:
             self._wait_for_cancel_task.cancel()
         self.cancel_event.set()
+        if self._tasks:
+            # let the cancelled tasks hand their messages back (or finish reporting)
+            # before the consumers are finished
+            await asyncio.wait(set(self._tasks))
